@@ -1,6 +1,6 @@
 #include "slu_mt_@p@defs.h"
 /* ghosts: arbitrary row, column, stored position */
-int_t g_i, g_j, g_k, g_m; extern int g_xerbla_calls, g_xerbla_arg;
+int_t g_i, g_j, g_k, g_m; @R@ g_amax; extern int g_xerbla_calls, g_xerbla_arg;
 /* inputs */
 SuperMatrix in_A; NCformat in_Astore; int_t in_colptr[CAP+1], in_rowind[NZ]; @T@ in_val[NZ];
 @R@ in_r[CAP], in_c[CAP], in_rowcnd, in_colcnd, in_amax; int_t in_info;
